@@ -143,7 +143,7 @@ def run(tier):
     chk = Check(PROP, tier)
     lean_ok = lean_gate(chk, THEOREMS)
     quick = tier == "quick"
-    n_sys = 70 if quick else 1500
+    n_sys = 180 if quick else 1500
     dmax = 4 if quick else 6
     r = rng(f"{PROP}-{tier}")
     systems = []
